@@ -119,10 +119,11 @@ class C15(Prop):
             vs.insert(rng.randrange(len(vs) + 1), [1, rng.randint(1, 9)]); tags.append("error-item")
         if not bounded:
             return sx([2, vs]), tags
-        start = rng.choice([0, first, first, max(0, first - 3), first + 1, pos + 2]) if n else rng.choice([0, 5])
-        end = rng.choice([pos, pos, pos + 7, pos + W, max(0, pos - 1), start])
+        start = rng.choice([0, first, first, max(0, first - 1), max(0, first - 3), first + 1, pos + 2]) if n else rng.choice([0, 5])
+        end = rng.choice([pos, pos, pos + 1, pos + 1, pos + 7, pos + W, max(0, pos - 1), start, start + 1])
         if vs and vs[0][0] == 0 and start > vs[0][1]: tags.append("start-after-first")
         if end < pos: tags.append("end-before-last")
+        if end == pos + 1: tags.append("one-base-tail")
         return sx([3, vs, start, end]), tags
 
     def merge_into_cases(self, rng, tier):
